@@ -21,6 +21,10 @@ META_ALPHABET = [
     ('text_sci', '1e3'), ('empty', ''), ('int', 5), ('negint', -3), ('float', 5.5), ('bool', True), ('boolf', False), ('null', None),
     ('list', [1, 2, 'x']), ('nested', {'a': {'b': 1}, 'c': [1.5]}), ('key with blank', 'v'), ('ключ', 'значение'), ('big', 12345678901234),
     ('smallfloat', 1.25e-12),
+    # keys that look like names other tools / older versions of the format use for built-in fields: plain metadata all the same
+    ('material_name', 'Basolite C300'), ('t_iso', 303.15), ('adsorbent_basis', 'mass'), ('adsorbent_unit', 'kg'), ('sample_name', 'batch 7'), ('t_exp', 25),
+    ('date', '2020-01-31'), ('DOI', '10.1000/xyz'), ('hashkey', 'abc123'), ('units', 'SI'), ('data', 'raw'),
+    ('isotherm', 'first'), ('version', 2), ('comment', 'a, b; c'),
 ]
 
 
@@ -154,6 +158,27 @@ def work(arg):
             res['viol'] += judge(mk.value, 'point', {'units': cfg, 'shape': spec, 'reached_by': 'conversion from default units'}, target,
                                  {'reached_by': 'conversion'})
             res['nt'] += 1
+    elif kind == 'registry-conflict':
+        # the isotherm carries its OWN material description; a material of the same name, with another value of the same property,
+        # is registered in the session when the document is read back
+        import pygaps
+        base_list = list(pygaps.MATERIAL_LIST)
+        try:
+            for target in ('string', 'file'):
+                pygaps.MATERIAL_LIST[:] = base_list
+                own = pygaps.Material('gen-mat-conflict', density=1.2, batch='own sample')
+                if spec == 'base':
+                    iso = g.mk_base(cfg, meta_small, material=own)
+                elif spec == 'point':
+                    iso = g.mk_point(cfg, (4, 'guessable', 'numeric'), meta_small, scale, material=own)
+                else:
+                    iso = g.mk_model(cfg, 'Langmuir', meta_small, material=own)
+                pygaps.MATERIAL_LIST.append(pygaps.Material('gen-mat-conflict', density=1.0))
+                res['viol'] += judge(iso, spec, {'units': cfg, 'material': own.to_dict(), 'registered under the same name': {'density': 1.0}}, target, {'material': 'registry-conflict'})
+                res['ev'] += 1
+                res['nt'] += 1
+        finally:
+            pygaps.MATERIAL_LIST[:] = base_list
     elif kind == 'gapped-index':
         # a frame cut out of a larger table: row labels with gaps, not starting at 0
         import pygaps
@@ -248,6 +273,9 @@ def run(ctx):
             if name in ('Langmuir', 'DR', 'Virial'):
                 jobs.append(('model', cfg, (name, 'desorption-branch'), ctx.scale))    # a model describing the desorption branch      # a fit error / range limit of exactly 0 is a value, not "missing"
         jobs.append(('gapped-index', cfg, (7, 'guessable', 'numeric'), ctx.scale))
+        if ci in (0, 5):
+            for cls in ('base', 'point', 'model'):
+                jobs.append(('registry-conflict', cfg, cls, ctx.scale))
     res = core.pmap(work, jobs, chunk=8)
     for r in res:
         ctx.add('round_trips', r['ev'], r['nt'])
